@@ -210,7 +210,7 @@ def _chunk_body(args):
     gc.collect()
     agg['wall'] = time.time() - t0
     faulthandler.cancel_dump_traceback_later()
-    out = {'agg': agg, 'found': found}
+    out = {'agg': agg, 'found': found, 'indices_done': len(done)}
     if nondet is not None and found is None:
         out['nondeterminism'] = nondet
     return out
@@ -560,7 +560,7 @@ def check(prop, tier, verif_seed, budget_s=None, jobs=None, max_runs=None,
     chunk = int(os.environ.get('VERIF_CHUNK', 0))
     adaptive = chunk <= 0
     if adaptive:
-        chunk = 24          # then sized so that a chunk lasts about 0.6 s
+        chunk = 3           # then sized so that a chunk lasts about 0.6 s
     agg = new_agg()
     found = None
     harness = None
@@ -600,9 +600,9 @@ def check(prop, tier, verif_seed, budget_s=None, jobs=None, max_runs=None,
                     continue
                 merge(agg, r['agg'])
                 if adaptive and r['agg'].get('wall', 0) > 0 and \
-                        r['agg']['runs']:
-                    per_s = r['agg']['runs'] / r['agg']['wall']
-                    chunk = max(16, min(400, int(.6 * per_s)))
+                        r.get('indices_done'):
+                    per_s = r['indices_done'] / r['agg']['wall']
+                    chunk = max(4, min(400, int(.6 * per_s)))
                 if r.get('harness_error'):
                     harness = r['harness_error']
                 if r.get('nondeterminism') and nondet is None:
